@@ -214,6 +214,8 @@ fn create_ranges_of_repetitions(
     config: &RegExpConfig,
 ) -> Vec<(Range<usize>, Vec<String>)> {
     let mut repetitions = Vec::<(Range<usize>, Vec<String>)>::new();
+    #[cfg(grex_verif)]
+    let repeated_substrings = crate::verif::reorder(repeated_substrings);
 
     for (prefix_length, group) in &repeated_substrings
         .iter()
